@@ -53,18 +53,19 @@ def _ref_eval_1d(c, s, d, axis):
     return out.movedim(-1, axis)
 
 
-def _coeffs(ctx, name, N, C, shape):
+def _coeffs(ctx, name, N, C, shape, bounded=False):
     n = N * C
     for m in shape:
         n *= m
-    return ctx.reals(name, [(((5 * i) % 17) - 8) / 4 for i in range(n)], nice=(-8, 8)).reshape((N, C) + tuple(shape))
+    kw = dict(ge=-8, le=8) if bounded else {}
+    return ctx.reals(name, [(((5 * i) % 17) - 8) / 4 for i in range(n)], nice=(-8, 8), **kw).reshape((N, C) + tuple(shape))
 
 
 def ob_evaluate(ctx, D, shape, stride, derivative, transpose=False):
     from deepali.core.bspline import evaluate_cubic_bspline
 
-    c = _coeffs(ctx, "c", 1, 2 if D < 3 else 1, shape)
     strides = [stride] * D if isinstance(stride, int) else list(stride)   # order (sx, ...)
+    c = _coeffs(ctx, "c", 1, 2 if D < 3 else 1, shape, bounded=max(strides) > 6)
     ders = [derivative] * D if isinstance(derivative, int) else list(derivative)
     out = evaluate_cubic_bspline(c, stride=stride, derivative=derivative if not transpose else None, transpose=transpose)
     ref = c
@@ -73,7 +74,10 @@ def ob_evaluate(ctx, D, shape, stride, derivative, transpose=False):
     ctx.reach()
     if not transpose:
         ctx.eq(torch.tensor(list(out.shape)), torch.tensor(list(ref.shape)), "output size (n - 3) * stride per axis")
-        ctx.eq(out, ref, f"evaluate(stride={stride}, derivative={derivative}) == sum_k c_k B^(d)(1 + j/s - k)")
+        if max(strides) <= 6:
+            ctx.eq(out, ref, f"evaluate(stride={stride}, derivative={derivative}) == sum_k c_k B^(d)(1 + j/s - k)")
+        else:  # float32 kernel entries of a large stride are identified with their exact rationals only up to float32 resolution
+            ctx.close(out, ref, 2e-4, f"evaluate(stride={stride}, derivative={derivative}) == sum_k c_k B^(d)(1 + j/s - k) (within 2e-4, |c| <= 8)")
     else:
         # transposed convolution returns the full support; the spline domain starts `stride` samples in
         sl = (slice(None), slice(None)) + tuple(slice(strides[D - 1 - ax], strides[D - 1 - ax] + ref.shape[2 + ax]) for ax in range(D))
